@@ -47,6 +47,12 @@ def main():
         if pid not in PROPS:
             old[sid] = {"seed": sid, "property": pid, "result": "no-check-yet"}
             continue
+        obs = os.path.join(VERIF, "seeded", sid, "OBSOLETE")
+        if os.path.exists(obs):
+            # a later repair of /repo made this change harmless (its demonstration passes with it): nothing to detect
+            old[sid] = {"seed": sid, "property": pid, "result": "obsolete", "kind": None, "line": open(obs).read().strip()[:300]}
+            print(sid, "obsolete", flush=True)
+            continue
         r = run_one(sid, pid)
         print(sid, r["result"], r.get("kind"), r.get("wall_s"), flush=True)
         old[sid] = r
